@@ -125,7 +125,7 @@ fn dot_case<Ty: EdgeType>(id: usize, r: &mut Rng, out: &mut Out) {
         for (i, w) in ix.iter().zip(nw.iter()) { let mut v = vec![i.index() as i64]; v.extend(chars(&fmtw(w))); ops.push(("dn".into(), v)); }
         for e in g.edge_references() { let mut v = vec![e.source().index() as i64, e.target().index() as i64]; v.extend(chars(&fmtw(e.weight()))); ops.push(("de".into(), v)); }
         let d = Dot::with_config(&g, &cfg);
-        text = match mode { 0 => format!("{}", d), 1 => format!("{:?}", d), _ => format!("{:#?}", d) };
+        text = match catch_unwind(AssertUnwindSafe(|| match mode { 0 => format!("{}", d), 1 => format!("{:?}", d), _ => format!("{:#?}", d) })) { Ok(t) => t, Err(_) => "\u{1}PANIC".to_string() };
     } else {
         let mut g: Graph<String, String, Ty, u32> = Graph::default();
         let ix: Vec<_> = nw.iter().map(|w| g.add_node(w.clone())).collect();
@@ -133,7 +133,7 @@ fn dot_case<Ty: EdgeType>(id: usize, r: &mut Rng, out: &mut Out) {
         for (i, w) in ix.iter().zip(nw.iter()) { let mut v = vec![i.index() as i64]; v.extend(chars(&fmtw(w))); ops.push(("dn".into(), v)); }
         for e in g.edge_references() { let mut v = vec![e.source().index() as i64, e.target().index() as i64]; v.extend(chars(&fmtw(e.weight()))); ops.push(("de".into(), v)); }
         let d = Dot::with_config(&g, &cfg);
-        text = match mode { 0 => format!("{}", d), 1 => format!("{:?}", d), _ => format!("{:#?}", d) };
+        text = match catch_unwind(AssertUnwindSafe(|| match mode { 0 => format!("{}", d), 1 => format!("{:?}", d), _ => format!("{:#?}", d) })) { Ok(t) => t, Err(_) => "\u{1}PANIC".to_string() };
     }
     for o in &ops { out.op(o); out.obs_lines(&[]); }
     out.op(&("render".into(), vec![]));
